@@ -224,7 +224,7 @@ func ruleR32R33(c *Ctx) {
 			case *ast.StructType:
 				for _, fld := range x.Fields.List {
 					if t := info.TypeOf(fld.Type); t != nil {
-						if b, ok := t.Underlying().(*types.Basic); ok && b.Kind() == types.Uintptr {
+						if b, ok := t.Underlying().(*types.Basic); ok && b.Kind() == types.Uintptr && c.inNodeGraph(x) {
 							c.r.bad("R32", fnName()+" struct field of type uintptr", m.pos(fld.Pos()), "an address kept in a uintptr field is invisible to the collector", props...)
 						}
 					}
@@ -413,7 +413,6 @@ func (c *Ctx) inDeadBranch(stack []ast.Node) bool {
 	return false
 }
 
-
 // slicePairAtCalls: unsafe.Slice(p, n) inside a helper whose p and n are parameters – every call
 // site must pass the pointer field and the length field of one and the same leaf.
 func (c *Ctx) slicePairAtCalls(u *FuncUnit, call *ast.CallExpr) (bool, int) {
@@ -453,4 +452,38 @@ func (c *Ctx) slicePairAtCalls(u *FuncUnit, call *ast.CallExpr) (bool, int) {
 		}
 	}
 	return len(sites) > 0, len(sites)
+}
+
+// inNodeGraph: st is the layout of a reference, an inner node, the shared header, a leaf or a
+// tree – the structures whose words the collector must see as pointers. (A uintptr field of any
+// other struct can only receive an address through a pointer→uintptr conversion, which R32
+// reports where it is written.)
+func (c *Ctx) inNodeGraph(st *ast.StructType) bool {
+	m := c.m
+	t := m.Info.TypeOf(st)
+	if t == nil {
+		return true
+	}
+	same := func(n *types.Named) bool {
+		return n != nil && n.Origin().Underlying() == t.Underlying() || (n != nil && types.Identical(n.Origin().Underlying(), t))
+	}
+	if same(m.NodeRef) || same(m.Header) {
+		return true
+	}
+	for i := range m.Kinds {
+		if same(m.Kinds[i].Struct) {
+			return true
+		}
+	}
+	for _, lt := range m.LeafTypes {
+		if same(lt) {
+			return true
+		}
+	}
+	for _, tk := range m.Trees {
+		if same(tk.Named) {
+			return true
+		}
+	}
+	return false
 }
